@@ -916,7 +916,7 @@ void WrLstLine(char const* Line) {
         return;
     }
 
-    if (PageLength == 0) {
+    if ((PageLength == 0) && (PageWidth == 0)) {
         errno = 0;
         fprintf(LstFile, "%s\n", Line);
         ChkIO(ErrNum_ListWrError);
@@ -947,7 +947,7 @@ void WrLstLine(char const* Line) {
             errno = 0;
             fprintf(LstFile, "%s\n", Line);
             ChkIO(ErrNum_ListWrError);
-            if ((++LstCounter) == PageLength) {
+            if (PageLength && ((++LstCounter) == PageLength)) {
                 NewPage(0, True);
             }
         } else {
@@ -961,7 +961,7 @@ void WrLstLine(char const* Line) {
                 LLine[hlen] = '\0';
                 errno       = 0;
                 fprintf(LstFile, "%s\n", LLine);
-                if ((++LstCounter) == PageLength) {
+                if (PageLength && ((++LstCounter) == PageLength)) {
                     NewPage(0, True);
                 }
                 Start += hlen;
